@@ -51,3 +51,59 @@ package consul
 //@   loop 2 invariant 0 <= passing && passing <= total && total <= rangeindex + 1
 //@   loop 2 invariant total == nSame(checks, svc, rangeindex+1) && passing == nPass(checks, svc, rangeindex+1, status)
 //@   loop 2 invariant forall j int :: 0 <= j && j <= rangeindex ==> !blocks(checks[j], svc)
+//@
+//@ // ---- C14: every generated route command has passed fabio's own parser ---------------------------------------
+//@ func validateCommand
+//@   props C14
+//@   assigns bufOf
+//@   ensures nopanic
+//@   ensures (result == nil) == accepts(cmd)
+//@   ensures forall x *bytes.Buffer :: !fresh(x) ==> bufOf[x] == old(bufOf[x])
+//@
+//@ func parseURLPrefixTag
+//@   props C14
+//@   assigns ioWrites, lastWrite
+//@   ensures nopanic
+//@
+//@ func parseURLPrefixTag$1
+//@   props C14
+//@   assigns nothing
+//@   ensures nopanic
+//@
+//@ func parseURLPrefixTag$1$1
+//@   props C14
+//@   assigns nothing
+//@   ensures nopanic
+//@
+//@ // what the options of ONE urlprefix tag say (fs = the tag's option words, first n of them): the last weight= wins,
+//@ // proto= and weight= are consumed, a well-formed redirect= becomes one option, everything else is passed through
+//@ spec fun isProtoOpt(o string) bool = o == "proto=tcp" || o == "proto=https" || o == "proto=grpcs" || o == "proto=grpc"
+//@ spec fun isWeightOpt(o string) bool = !isProtoOpt(o) && hasPrefix(o, "weight=")
+//@ spec fun weightOf(fs []string, n int) string decreases n = n <= 0 ? "" : (isWeightOpt(fs[n-1]) ? fs[n-1][7:] : weightOf(fs, n-1))
+//@ spec fun nOpts(fs []string, n int) int decreases n = n <= 0 ? 0 : nOpts(fs, n-1) + ((isProtoOpt(fs[n-1]) || isWeightOpt(fs[n-1])) ? 0 : (hasPrefix(fs[n-1], "redirect=") ? (len(splitParts(fs[n-1][9:], ",")) == 2 ? 1 : 0) : 1))
+//@
+//@ func (routecmd).build
+//@   props C14
+//@   requires r.svc != nil
+//@   assigns bufOf, ioWrites, lastWrite
+//@   ensures nopanic
+//@   // validate-before-emit: whatever the registration contains, only commands the parser accepts are emitted
+//@   ensures forall i int :: 0 <= i && i < len(result) ==> accepts(result[i])
+//@   loop 1 invariant (cap(svctags) == 0 || fresh(svctags)) && (cap(routetags) == 0 || fresh(routetags)) && (cap(svctags) == 0 || cap(routetags) == 0 || ref(svctags) != ref(routetags))
+//@   loop 2 invariant cap(config) == 0 || fresh(config)
+//@   loop 2 invariant forall i int :: 0 <= i && i < len(config) ==> accepts(config[i])
+//@   loop 3 invariant (cap(config) == 0 || fresh(config)) && (cap(ropts) == 0 || fresh(ropts)) && (cap(config) == 0 || cap(ropts) == 0 || ref(config) != ref(ropts))
+//@   loop 3 invariant forall i int :: 0 <= i && i < len(config) ==> accepts(config[i])
+//@   // the weight and the options of a command come from this tag's own option words and from nothing else
+//@   loop 3 invariant cap(ropts) == 0 || ref(ropts) != ref(rangeover)
+//@   loop 3 invariant @C14 weight == weightOf(rangeover, rangeindex+1) && len(ropts) == nOpts(rangeover, rangeindex+1)
+//@
+//@ func (*ServiceMonitor).serviceConfig
+//@   props C14
+//@   requires w != nil && w.client != nil && w.config != nil
+//@   assigns bufOf, ioWrites, lastWrite
+//@   ensures nopanic
+//@   // the commands of one service are the concatenation of what build emitted for its passing instances
+//@   ensures forall i int :: 0 <= i && i < len(config) ==> accepts(config[i])
+//@   loop 1 invariant cap(config) == 0 || fresh(config)
+//@   loop 1 invariant forall i int :: 0 <= i && i < len(config) ==> accepts(config[i])
